@@ -5,8 +5,16 @@ PROP = "C06"
 SLICES = "hist spell stale prev imports samefile underscore".split()
 
 
+def stages(tier, v, stats, seed):
+    # "a declaration that has been exported is never lost by a later export" - also when the later export runs on
+    # another thread: the exact schedules of the C05 check, verdicts filed here
+    import threads
+    threads.run(tier, v, stats, seed)
+
+
 def run(tier):
-    return exportchecks.run_property(PROP, SLICES, tier)
+    return exportchecks.run_property(PROP, SLICES, tier, extra_stage=stages,
+                                     extra_assumptions=["thread runs: see C05"])
 
 
 def replay(path):
